@@ -9,7 +9,7 @@ from engine import Op, set_mode
 
 PROP = "C02"
 QUICK_BOOST = 2
-LEAN_MODULES = ["IsoDT.Props.C02", "IsoDT.Props.C02q"]
+LEAN_MODULES = ["IsoDT.Props.C02", "IsoDT.Props.C02b", "IsoDT.Props.C02q"]
 RULE = ("ordered pairs built from a target instant distance (0, +-1 s, +-1 min, +-1 h, +-1 d, large) "
         "re-expressed in another representation / offset / the 24:00 form; non-trivial when the operands "
         "differ in representation, offset or 24:00 spelling; distinct by (op, arguments)")
